@@ -18,7 +18,7 @@ from streamflow.deployment.template import CommandTemplateMap
 
 from sfv.framework import Ctx, Property
 from sfv.rt.hexs import hx, unhx
-from sfv.rt.shfake import Hang, MiniConnector, mini_location, run_watchdog
+from sfv.rt.shfake import in_scratch_cwd, Hang, MiniConnector, mini_location, run_watchdog
 from sfv.translate import cmdtmpl
 
 PY = sys.executable
@@ -82,7 +82,7 @@ class C25(Property):
     props_files = ["SFV/Props/C25.lean"]
     drivers = ["Drivers/C25.lean"]
     translators = [cmdtmpl.generate]
-    quick_budget_s = 480
+    quick_budget_s = 900
     rule = ("(1) render: random workdir/environment/command through the real _build_shell_command, create_command and "
             "CommandTemplateMap.get_command vs the Lean renderers assembled from the generated template pieces; (2) lexer: random "
             "lines over quotes, backslash, $, backtick, operators, blanks, unicode read by the Lean sh lexer and by /bin/sh (argv printed "
@@ -310,7 +310,8 @@ class C25(Property):
         rng = ctx.rng
         plan = []
         # boundary corpus first: one nasty thing at a time, on each path
-        for s in ["a b", "$HOME", "`id`", 'q"uote', "a'b", "back\\slash", "new\nline", "st*r", "semi;colon", "日本 😀"]:
+        corpus = ["a b", "$HOME", "`id`", 'q"uote', "a'b", "back\\slash", "new\nline", "st*r", "semi;colon", "日本 😀"]
+        for s in (corpus if ctx.tier == "thorough" or ctx.mode == "search" else corpus[:6]):
             for kind in ("shell", "local", "qm"):
                 plan.append((kind, dir_name(rng, False), {"K": s}))
             plan.append(("shell", s.replace("/", "_"), {"K": "v"}))
@@ -369,7 +370,7 @@ class C25(Property):
             except WorkflowExecutionException as e:
                 return ("exc", str(e)), sh._reader.i
 
-        real, used = run_watchdog(go, 30)
+        real, used = run_watchdog(go, 120)
         dec = codecs.getincrementaldecoder("utf-8")(errors="replace")
         dchunks = [dec.decode(c, final=False) for c in chunks]
         return real, used, chunks, dchunks
@@ -444,9 +445,10 @@ class C25(Property):
                         r = ("exc:" + type(e).__name__, None)
                     results.append(r)
                     if c["timeout"]:
+                        # release the first execution, still blocked in the shell (the file stays: under load the shell-side
+                        # polling loop may need longer than any fixed delay to see it)
                         open(go_file, "w").close()
                         await asyncio.sleep(0.3)
-                        os.unlink(go_file)
                 await asyncio.sleep(0.2)
                 for i in range(len(seq)):
                     cnt = os.path.join(base, f"c{i}")
@@ -455,7 +457,7 @@ class C25(Property):
                 await conn.undeploy(False)
 
         try:
-            run_watchdog(run_all, 60)
+            run_watchdog(run_all, 300)
         except Hang as e:
             return {"hang": str(e), "results": results, "counts": counts}
         return {"results": results, "counts": counts}
@@ -589,6 +591,7 @@ class C25(Property):
                     ctx.fail("equiv:shell-differs-from-fresh-process", f"{sample}: shell {str(a)[:80]!r} vs fresh {str(b)[:80]!r}", replay)
 
     # ------------------------------------------------------------------------------------------------------------
+    @in_scratch_cwd
     def explore(self, ctx: Ctx) -> None:
         from sfv.rt.shfake import limit_failures
         limit_failures(ctx)
@@ -598,15 +601,16 @@ class C25(Property):
         l2, e2, m2 = self.framing_cases(ctx, 400 if big else 90)
         lines, expect, meta = lines + l2, expect + e2, meta + m2
         self.lexer_cases(ctx, 1500 if big else 250)
-        self.exec_cases(ctx, 300 if big else 45)
-        l3, e3, m3 = self.policy_cases(ctx, 12 if big else 4, 4 if big else 2)
+        self.exec_cases(ctx, 300 if big else 24)
+        l3, e3, m3 = self.policy_cases(ctx, 12 if big else 3, 4 if big else 2)
         lines, expect, meta = lines + l3, expect + e3, meta + m3
-        self.output_cases(ctx, 40 if big else 10)
+        self.output_cases(ctx, 40 if big else 6)
         got = ctx.lean("Drivers/C25.lean", lines)
         for g, e, m in zip(got, expect, meta):
             if g != e:
                 ctx.disagree(f"model vs {m[0]}", f"{m[0]}: code {e[:300]!r}, Lean model {g[:300]!r}", m[1])
 
+    @in_scratch_cwd
     def replay(self, ctx: Ctx, data) -> None:
         self._setup(ctx)
         r = data.get("replay") or {}
